@@ -192,6 +192,12 @@ PROPERTIES = {
         "pydot: Node/Edge store what they are given, add_node/add_edge append (ghost origin/count fields)",
         "machine is an instance; _get_graph, _state_actions and label strings are styling only (assumed)",
         "WF(cls): states pairwise distinct, a transition object sits at one position of one state's list"]},
+    "C06": {"lemmas": [lambda: __import__("checker.og", fromlist=["x"]).all_obligations()], "scans": [_scans_engine],
+            "bounded": [witnesses("C06", ["C06_thread_stranded_event"])],
+            "assumptions": [
+                "atomicity model: asyncio = blocks between awaits are atomic (AST scans check the premises on the real async processing_loop and Event.__call__); threads = each deque/Lock method call is atomic under the GIL",
+                "the outline is per role, so it is unbounded in the number of senders and events; it is a proof about this model, not about CPython's scheduler",
+                "fair completion of senders; no failures (with a failure C04's 'queue dropped' takes precedence)"]},
     "C09": {"assumptions": [
         "REACH is the least relation closed under 'start' and 'transition target': the induction principle is applied once, to the set yielded by visit_connected_states (Visit.derived); closedness of that set is a discharged postcondition",
         "State objects are compared by identity in sets/dicts (State.__hash__/__eq__ consistent, (name,id) pairs distinct)",
